@@ -13,7 +13,8 @@
    Multi-product nodes (Sim/MultiOrder.v: the ordering step of ONE node in ONE period, the state it starts from being an
    input): each product's order = min(capacity, rule(position with units earmarked for the other products)), the
    raw-material orders add up per raw material to NBOM x finished-goods orders, the first supplier gets everything.
-   The evolution of multi-product networks over time is not modelled (monitors on the implementation only). *)
+   The evolution of multi-product networks over time is the Stage-2 model Sim2/Model2.v: the C04_multi_run_* / C04_multi_model_* theorems
+   below state the same facts for every record of every run and identify its ordering action with this stand-alone step. *)
 From SV Require Import Sim.Model Sim.Inv_base Sim.Policy_thms Sim.Main Sim.Example Sim.MultiOrder Sim.MultiOrder_proofs Sim.Obs Sim.Serial.
 From Coq Require Import Permutation.
 From SV Require Import Sim2.State2 Sim2.Model2 Sim2.Inv2a_tac Sim2.Inv2a_run Sim2.Wfb2 Sim2.Inv2b_tac Sim2.Inv2b_init Sim2.Main2b Sim2.Inv2c_order Sim2.Inv2c_refine Sim2.Main2c.
